@@ -7,7 +7,7 @@ from __future__ import annotations
 import ast
 from fractions import Fraction
 
-from ..absint import TOP, DictV, ExtRef, FuncRef, Interp, Tup
+from ..absint import TOP, Const, DictV, ExtRef, FuncRef, Interp, Tup
 from ..domains.affine import A, Poly, mkA
 from ..domains.arrays import Arr, ArrayDomain
 from ..domains.units import PX, U_NM, U_S, UnitsDomain
@@ -131,11 +131,14 @@ def _maxima_radius_rule(rep, funcs):
         return False
     M = Matcher(f)
     b: dict = {}
-    ok, why = M.all_of(["$r = int(np.ceil(radius))", "$size = 2 * $r + 1", "return ndi.maximum_filter(image, ..., footprint=$$foot)"], b)
+    ok, why = M.all_of(["$r = int(np.ceil(radius))", "return ndi.maximum_filter(image, ..., footprint=$$foot)"], b)
     ok2 = False
     if ok:
-        # the footprint is a ball of that radius centred in the (2r+1)^3 box
-        ok2 = M.has("($$z - $r) ** 2 + ($$y - $r) ** 2 + ($$x - $r) ** 2 <= radius ** 2", b)
+        # the footprint is a ball of that radius centred in the (2r+1)^3 box (idioms enumerated in common.ball_footprint)
+        from .common import ball_footprint
+        ok2 = ball_footprint(M, "$r", "radius", b)
+        if not ok2:
+            why = "the footprint is not recognised as the ball sum_k offset_k**2 <= radius**2 over offsets -ceil(radius)..ceil(radius)"
     rep.instance("S17", f.loc())
     rep.ob("S17", f.anchor, "the maxima search looks ceil(radius) pixels around each voxel (ball footprint in a (2*ceil(r)+1)^3 box)", bool(ok and ok2), why, node=f.node,
            fn=f, clause="halo", stmt="maximum_filter radius")
@@ -145,6 +148,130 @@ def _maxima_radius_rule(rep, funcs):
         okg = Matcher(g).has("maximum_filter(img, min_distance)")
         rep.ob("S17", g.anchor, "find_maxima searches maxima with radius min_distance", okg, "", node=g.node, fn=g, clause="halo", stmt="find_maxima radius")
     return bool(ok and ok2 and okg)
+
+
+def _halo_semantics(model, g, dpar):
+    """Abstract evaluation of the chunk wrapper on per-axis symbols: positions P_k (columns of `pos`), chunk starts s_k (block_info[None]['array-location']),
+    overlap d_k, overlapped chunk sizes n_k.  Returns (mask constraints, final columns, filtered arguments of MoleculesBox) or an error string."""
+    from dataclasses import dataclass as _dc
+    from ..domains.affine import AffineDomain as _AD, BoolAnd as _BA, BoolC as _BC
+    from ..absint import ClassRef as _CR
+
+    @_dc(frozen=True)
+    class Cols:
+        cols: tuple
+        maybe_none = False
+
+    @_dc(frozen=True)
+    class Rows:
+        name: str
+        maybe_none = False
+
+    @_dc(frozen=True)
+    class Filt:
+        base: object
+        mask: object
+        maybe_none = False
+
+    @_dc(frozen=True)
+    class Mark:
+        kind: str
+        maybe_none = False
+
+    def _as_int(k):
+        if isinstance(k, Const) and isinstance(k.value, int):
+            return k.value
+        if isinstance(k, A) and k.is_poly() and k.poly().is_const():
+            return int(k.poly().const_value())
+        return None
+
+    class HD(_AD):
+        def _is_mask(self, v):
+            return isinstance(v, (_BC, _BA)) or (isinstance(v, Const) and v.value is True)
+
+        def call_external(self, interp, name, recv, args, kwargs, node):
+            last = (name or "").rsplit(".", 1)[-1]
+            if last == "ones" and "bool" in norm_src(node):
+                return _BA(())
+            return super().call_external(interp, name, recv, args, kwargs, node)
+
+        def call_repo(self, interp, funcs_, bound, args, kwargs, node):
+            if {x.name for x in funcs_} == {"pick_in_chunk"}:
+                return Tup([Cols(tuple(self.sym(f"P{k}") for k in range(3))), Rows("quats"), Rows("features")])
+            return super().call_repo(interp, funcs_, bound, args, kwargs, node)
+
+        def binop(self, interp, op, l, r, node):
+            if isinstance(op, ast.BitAnd) and self._is_mask(l) and self._is_mask(r):
+                parts = []
+                for v in (l, r):
+                    if isinstance(v, _BA):
+                        parts += list(v.parts)
+                    elif isinstance(v, _BC):
+                        parts.append(v)
+                return _BA(tuple(parts))
+            return super().binop(interp, op, l, r, node)
+
+        def attr(self, interp, val, name, node):
+            if isinstance(val, Mark) and val.kind == "image" and name == "shape":
+                return Tup([self.sym(f"n{k}") for k in range(3)])
+            if isinstance(val, Cols) and name == "shape":
+                return Tup([self.sym("N"), mkA(3)])
+            return super().attr(interp, val, name, node)
+
+        def subscript(self, interp, val, index_node, index_val, node):
+            if isinstance(val, Mark) and val.kind == "block_info":
+                return Mark("block_info[None]") if norm_src(index_node) == "None" else TOP
+            if isinstance(val, Mark) and val.kind == "block_info[None]":
+                if norm_src(index_node) in ("'array-location'", '"array-location"'):
+                    return Tup([Tup([self.sym(f"s{k}"), self.sym(f"e{k}")]) for k in range(3)])
+                return TOP
+            if isinstance(val, Cols):
+                if isinstance(index_node, ast.Tuple) and len(index_node.elts) == 2 and isinstance(index_node.elts[0], ast.Slice) and index_node.elts[0].lower is None \
+                        and index_node.elts[0].upper is None and isinstance(index_val, Tup):
+                    kk = _as_int(index_val.items[1])
+                    if kk is not None and 0 <= kk < 3:
+                        return val.cols[kk]
+                    return TOP
+                if self._is_mask(index_val):
+                    return Filt(val, index_val)
+                return TOP
+            if isinstance(val, Rows):
+                return Filt(val, index_val) if self._is_mask(index_val) else TOP
+            if isinstance(val, Tup) and _as_int(index_val) is not None and -len(val.items) <= _as_int(index_val) < len(val.items):
+                return val.items[_as_int(index_val)]  # shape[i] with the loop index known
+            return super().subscript(interp, val, index_node, index_val, node)
+
+        def store_sub(self, interp, container, index_node, index_val, value, node):
+            if isinstance(container, Cols) and isinstance(index_node, ast.Tuple) and len(index_node.elts) == 2 and isinstance(index_val, Tup):
+                kk = _as_int(index_val.items[1])
+                if kk is not None and 0 <= kk < 3 and isinstance(value, A):
+                    cols = list(container.cols)
+                    cols[kk] = value
+                    return Cols(tuple(cols))
+            return TOP
+
+    dom = HD(model, integer_syms={f"{c}{k}" for c in "Psden" for k in range(3)}, nonneg_syms={f"d{k}" for k in range(3)})
+    it = Interp(model, dom, depth=0)
+    box = []
+
+    def on_call(interp, fn_, node, callee, args, kwargs, env):
+        if fn_ is g and isinstance(callee, _CR) and callee.cls.name == "MoleculesBox":
+            box.append(list(args))
+
+    it.on_call.append(on_call)
+    args = {"image": Mark("image"), "block_info": Mark("block_info"), dpar: Tup([dom.sym(f"d{k}") for k in range(3)])}
+    try:
+        it.run(g, args=args)
+    except Exception as e:
+        return f"the wrapper could not be evaluated ({e!r})"[:200]
+    if len(box) != 1 or len(box[0]) < 2:
+        return f"{len(box)} MoleculesBox constructions evaluated"
+    a0, a1 = box[0][0], box[0][1]
+    if not (isinstance(a0, Filt) and isinstance(a0.base, Cols) and isinstance(a1, Filt) and isinstance(a1.base, Rows)):
+        return f"MoleculesBox receives {a0!r}, {a1!r}: positions / orientations are not filtered by a mask"[:220]
+    if a0.mask != a1.mask:
+        return "positions and orientations are filtered with different masks"
+    return dom, a0.mask, a0.base.cols
 
 
 def halo_clause(model, rep, funcs):
@@ -177,61 +304,63 @@ def halo_clause(model, rep, funcs):
            f"depth={norm_src(depth)}; forwarded as {[k.arg for k in passed]}; worker parameters {params}", node=c, fn=f, clause="halo",
            stmt="map_overlap depth forwarded")
     dpar = recv[0] if recv else "overlap_depth"
-    # (b) picks in the halo are discarded
-    b: dict = {}
-    loops = [f"for $i, (($start, $_), $d) in enumerate(zip($$locs, {dpar})): ...", f"for $i, ($d, ($start, $_)) in enumerate(zip({dpar}, $$locs)): ..."]
-    loop = None
-    for lp in loops:
-        r = MG.find(lp, b)
-        if r:
-            loop, b = r[0]
-            break
-    det = ""
-    okb = False
-    if loop is None:
-        det = f"no loop over (chunk location, {dpar}) pairs"
-    else:
-        tests = ["$keep &= ($d <= $pos[:, $i]) & ($pos[:, $i] < image.shape[$i] - $d)", "$keep &= ($pos[:, $i] >= $d) & ($pos[:, $i] < image.shape[$i] - $d)",
-                 "$keep &= ($d <= $pos[:, $i]) & (image.shape[$i] - $d > $pos[:, $i])"]
-        hit = None
-        for t in tests:
-            r = MG.find(t, b, within=loop)
-            if r:
-                hit, b = r[0]
-                break
-        if hit is None:
-            det = "no per-axis interior test `d <= pos[:, i] < size_i - d` in the loop over axes"
-        else:
-            ok1, why = MG.all_of(["$pos, $quats, $feat = self.pick_in_chunk(image, **kwargs)", "$keep = np.ones($pos.shape[0], dtype=np.bool_)",
-                                  "MoleculesBox($pos[$keep], $quats[$keep], $$f)"], b)
-            ok2 = ok1 and (MG.has("{$k: np.asarray($v)[$keep] for $k, $v in $feat.items()}", b) or MG.has("{$k: $v[$keep] for $k, $v in $feat.items()}", b))
-            okb = bool(ok1 and ok2)
-            det = why if not ok1 else ("" if ok2 else "the feature columns are not filtered with the same mask")
-    rep.ob("S17", g.anchor, "(b) picks in the overlapped (halo) region are discarded: each chunk keeps only d <= pos < size - d, applied to positions, orientations "
-           "and features alike", okb or trimmed, det, node=g.node, fn=g, clause="halo", stmt="halo filter")
-    # (c) global offset: chunk start in the un-overlapped array is added once; the depth actually given to dask is removed once
+    # (b) picks in the halo are discarded, (c) chunk start added once: decided on per-axis symbols by abstract evaluation of the wrapper (_halo_semantics) -
+    # one loop or several, any spelling of the interior test
+    sem = _halo_semantics(model, g, dpar)
+    okb, det = False, ""
     okc, detc = False, ""
-    if loop is not None:
-        ldump = ast.dump(MG.expr(b["locs"][1])) if "locs" in b else ""
-        locs_ok = "array-location" in ldump and "Constant(value=None)" in ldump and "block_info" in ldump
-        adds = MG.find("$pos[:, $i] += $$off", b, within=loop)
+    if isinstance(sem, str):
+        det = detc = sem
+    else:
+        dom_, mask, cols = sem
+        from ..domains.affine import BoolAnd as _BA, BoolC as _BC
+        want = []
+        for k in range(3):
+            P, d, n = dom_.sym(f"P{k}"), dom_.sym(f"d{k}"), dom_.sym(f"n{k}")
+            want.append(("ge", dom_.add(P, dom_.neg(d))))            # P - d >= 0
+            want.append(("gt", dom_.add(dom_.add(n, dom_.neg(d)), dom_.neg(P))))  # n - d - P > 0
+        got = []
+        bad = None
+        for c in (mask.parts if isinstance(mask, _BA) else [mask]):
+            if not isinstance(c, _BC):
+                bad = f"mask term {c!r}"
+                break
+            if c.op in ("<=", "<"):
+                got.append(("ge" if c.op == "<=" else "gt", dom_.neg(c.diff)))
+            elif c.op in (">=", ">"):
+                got.append(("ge" if c.op == ">=" else "gt", c.diff))
+            else:
+                bad = f"mask term {c!r}"
+                break
+        if bad is None:
+            missing = [w for w in want if not any(g_[0] == w[0] and g_[1].equals(w[1]) for g_ in got)]
+            extra = [g_ for g_ in got if not any(g_[0] == w[0] and g_[1].equals(w[1]) for w in want)]
+            if missing or extra:
+                bad = (f"interior test is {[f'{g_[1]!r} {chr(62)}{chr(61) if g_[0] == chr(103) + chr(101) else str()} 0' for g_ in got]}; required d_k <= P_k < n_k - d_k on every axis of the "
+                       "position *in the overlapped chunk* (before the chunk start is added)")[:400]
+        if bad is None:
+            MGf = Matcher(g)
+            okf = MGf.has("{$k: np.asarray($v)[$keep] for $k, $v in $feat.items()}") or MGf.has("{$k: $v[$keep] for $k, $v in $feat.items()}")
+            okb = bool(okf)
+            det = "" if okf else "the feature columns are not filtered with the mask"
+        else:
+            det = bad
+        # (c) final columns: P_k + s_k (chunk start in the un-overlapped image, read from block_info[None]['array-location'])
+        offs = [dom_.add(cols[k], dom_.neg(dom_.sym(f"P{k}"))) for k in range(3)]
         fin = MF.find("$m._pos = ($m._pos - $$back) * scale")
         fin0 = MF.find("$m._pos = $m._pos * scale")
-        if not locs_ok:
-            detc = "chunk locations are not read from block_info[None]['array-location'] (location in the un-overlapped image)"
-        elif len(adds) != 1:
-            detc = f"{len(adds)} additions of the chunk start to the positions"
+        if all(offs[k].equals(dom_.sym(f"s{k}")) for k in range(3)) and fin:
+            back = _strip_asarray(MF.expr(fin[0][1]["back"][1]))
+            want_ = _strip_asarray(MF.expr(depth))
+            okc = ast.dump(back) == ast.dump(want_)
+            detc = (f"positions are shifted back by `{src(fin[0][1]['back'][1])}` but the chunks were overlapped by `{norm_src(depth)}`" if not okc else "")
+        elif all(offs[k].equals(dom_.add(dom_.sym(f"s{k}"), dom_.neg(dom_.sym(f"d{k}")))) for k in range(3)) and fin0 and not fin:
+            okc = True
         else:
-            off = src(adds[0][1]["off"][1])
-            if off == src(b["start"][1]) and fin:
-                back = _strip_asarray(MF.expr(fin[0][1]["back"][1]))
-                want = _strip_asarray(MF.expr(depth))
-                okc = ast.dump(back) == ast.dump(want)
-                detc = (f"positions are shifted back by `{src(fin[0][1]['back'][1])}` but the chunks were overlapped by `{norm_src(depth)}`" if not okc else "")
-            elif off.replace(" ", "") == f"{src(b['start'][1])}-{src(b['d'][1])}" and fin0 and not fin:
-                okc = True
-            else:
-                detc = f"offset `{off}`; final shift `{src(fin[0][0]) if fin else (src(fin0[0][0]) if fin0 else None)}`: the overlap depth must be removed exactly once"
+            detc = (f"per-axis offset added to the chunk-local position: {[repr(o) for o in offs]}; final shift "
+                    f"`{src(fin[0][0]) if fin else (src(fin0[0][0]) if fin0 else None)}`: the chunk start must be added once and the overlap depth removed exactly once")[:400]
+    rep.ob("S17", g.anchor, "(b) picks in the overlapped (halo) region are discarded: each chunk keeps only d <= pos < size - d, applied to positions, orientations "
+           "and features alike", okb or trimmed, det, node=g.node, fn=g, clause="halo", stmt="halo filter")
     rep.ob("S17", g.anchor, "(c) global position = position in the overlapped chunk + chunk start in the original image - overlap depth given to dask "
            "(removed exactly once)", okc, detc, node=g.node, fn=g, clause="halo", stmt="chunk offset")
     # the margin is added to the depth that goes to dask
